@@ -50,6 +50,28 @@ func backwardSliceOpt(v ssa.Value, direct bool, visit func(ssa.Value) bool) bool
 				return rec(rg.X, depth+1)
 			}
 		}
+		if prm, isPrm := v.(*ssa.Parameter); isPrm && sliceEnterHelpers != "" && sliceProg != nil {
+			// a parameter of a private helper of the package: what its callers pass
+			fn := prm.Parent()
+			if fn != nil && fn.Object() != nil && !fn.Object().Exported() && funcPkgPath(fn) == sliceEnterHelpers && depth < 40 {
+				idx := -1
+				for i, q := range fn.Params {
+					if q == prm {
+						idx = i
+					}
+				}
+				ci := callIndexOf(sliceProg)
+				if idx >= 0 && !ci.asValue[fn] {
+					for _, r := range ci.callers[fn] {
+						args := r.Instr.(ssa.CallInstruction).Common().Args
+						if idx < len(args) && rec(args[idx], depth+1) {
+							return true
+						}
+					}
+				}
+			}
+			return false
+		}
 		in, ok := v.(ssa.Instruction)
 		if !ok {
 			return false
@@ -168,3 +190,6 @@ func copiedInto(a ssa.Value, visit func(ssa.Value) bool) bool {
 // unexported functions of that package through their results (used by the wire-conversion analysis, where a
 // part of an encoder or decoder may live in a helper of the conversion package).
 var sliceEnterHelpers string
+
+// sliceProg: the program, for resolving the callers of a helper (set together with sliceEnterHelpers).
+var sliceProg *Prog
